@@ -418,17 +418,34 @@ def XRes.outcome : XRes → Outcome
 A small parser of the header and the (uncompressed) question section, enough to state that
 the parsed reply is a function of the received bytes only. -/
 
-/-- Uncompressed name in presentation bytes (labels joined by `.`), and the rest. -/
-def parseName : Nat → List Nat → Option (List Nat × List Nat)
-  | 0, _ => none
-  | _, [] => none
-  | fuel + 1, len :: rest =>
+/-- `isDomainNameLabelSpecial`: bytes that `UnpackDomainName` prefixes with a backslash. -/
+def labelSpecial (b : Nat) : Bool :=
+  b = 46 || b = 32 || b = 39 || b = 64 || b = 59 || b = 40 || b = 41 || b = 34 || b = 92
+
+/-- One label byte in presentation format: `\c` for the special ones, `\DDD` outside the printable
+ASCII range, the byte itself otherwise (as `UnpackDomainName` writes them). -/
+def escByte (b : Nat) : List Nat :=
+  if labelSpecial b then [92, b]
+  else if b < 32 ∨ 126 < b then [92, 48 + b / 100, 48 + (b / 10) % 10, 48 + b % 10]
+  else [b]
+
+def escLabel (l : List Nat) : List Nat := l.flatMap escByte
+
+/-- Uncompressed name in presentation bytes (escaped labels, each followed by `.`), and the rest.
+`budget` is `maxDomainNameWireOctets` minus what the labels so far took (`ErrLongDomain` when it
+is used up); compression pointers and the reserved label types are errors here (a pointer in the
+question section of a reply is outside the model). -/
+def parseName : Nat → Int → List Nat → Option (List Nat × List Nat)
+  | 0, _, _ => none
+  | _, _, [] => none
+  | fuel + 1, budget, len :: rest =>
     if len = 0 then some ([], rest)
     else if 64 ≤ len then none
     else if rest.length < len then none
-    else match parseName fuel (rest.drop len) with
+    else if budget - (len + 1 : Nat) ≤ 0 then none
+    else match parseName fuel (budget - (len + 1 : Nat)) (rest.drop len) with
       | none => none
-      | some (nm, r) => some (rest.take len ++ [46] ++ nm, r)
+      | some (nm, r) => some (escLabel (rest.take len) ++ [46] ++ nm, r)
 
 /-- The question loop of `dns.Msg.unpack`.  `unpackQuestion` is lenient when the message ends
 exactly after the name (type 0), exactly after the type, or inside the class; a following
@@ -436,7 +453,7 @@ question then fails. -/
 def parseQs : Nat → List Nat → Option (List Question)
   | 0, _ => some []
   | k + 1, b =>
-    match parseName b.length b with
+    match parseName b.length 255 b with
     | some (nm, []) =>
       if k = 0 then some [{ name := (if nm = [] then [46] else nm), qtype := 0 }] else none
     | some (nm, [t1, t2]) =>
@@ -479,5 +496,36 @@ def Raw.wire : Raw → Wire
     | none => .bad
   | .netErr => .netErr
   | .eof => .eof
+
+/-! ## The wire format written down independently of the parser (specification side)
+
+`encodeReply` is how RFC 1035 §4.1 lays out a message with one question: twelve header octets,
+the labels each preceded by its length, a zero octet, type and class; whatever follows
+(`tail`: resource records) is not looked at by the properties. -/
+
+def encodeName : List (List Nat) → List Nat
+  | [] => [0]
+  | l :: r => l.length :: l ++ encodeName r
+
+/-- Presentation form of a list of labels, as `UnpackDomainName` prints it (`.` for the root). -/
+def presName (ls : List (List Nat)) : List Nat :=
+  if ls = [] then [46] else ls.flatMap (fun l => escLabel l ++ [46])
+
+structure Hdr where
+  id1 : Nat
+  id2 : Nat
+  f1 : Nat
+  f2 : Nat
+  an : Nat × Nat := (0, 0)
+  ns : Nat × Nat := (0, 0)
+  ar : Nat × Nat := (0, 0)
+
+def encodeReply (h : Hdr) (labels : List (List Nat)) (t1 t2 c1 c2 : Nat) (tail : List Nat) : List Nat :=
+  [h.id1, h.id2, h.f1, h.f2, 0, 1, h.an.1, h.an.2, h.ns.1, h.ns.2, h.ar.1, h.ar.2] ++
+    encodeName labels ++ [t1, t2, c1, c2] ++ tail
+
+/-- Labels a name may legally consist of: 1–63 octets each, at most 255 octets on the wire. -/
+def legalLabels (ls : List (List Nat)) : Prop :=
+  (∀ l ∈ ls, 1 ≤ l.length ∧ l.length ≤ 63) ∧ (encodeName ls).length ≤ 255
 
 end Agd.Forward
